@@ -48,6 +48,34 @@ theorem slice_step_zero (n : Nat) (a b c : Option Int) : slicePos n a b c = none
   rw [Option.map_eq_none_iff]
   exact sliceIndices_none_iff n a b c
 
+/-- `[:]` selects every observation, in order. -/
+theorem slice_all (n : Nat) : slicePos n none none none = some (List.range n) := by
+  have h : sliceIndices n none none none = some (0, (n : Int), 1) := by
+    simp [sliceIndices]
+  unfold slicePos
+  rw [h]
+  simp only [Option.map_some, rangeList, rangeLen_all, List.map_map]
+  congr 1
+  conv_rhs => rw [← List.map_id (List.range n)]
+  apply List.map_congr_left
+  intro i _
+  simp
+
+/-- `[::-1]` selects every observation, in reverse order. -/
+theorem slice_reversed (n : Nat) : slicePos n none none (some (-1)) = some (List.range n).reverse := by
+  have h : sliceIndices n none none (some (-1)) = some ((n : Int) - 1, -1, -1) := by
+    simp [sliceIndices]
+  unfold slicePos
+  rw [h]
+  simp only [Option.map_some, rangeList, rangeLen_rev, List.map_map]
+  congr 1
+  apply List.ext_getElem
+  · simp
+  · intro i h1 h2
+    simp only [List.getElem_map, List.getElem_range, Function.comp, List.getElem_reverse, List.length_range]
+    simp at h1
+    omega
+
 /-- A slice selects no observation twice. -/
 theorem slice_no_repeat {n : Nat} {a b c : Option Int} {ps : List Nat} (h : slicePos n a b c = some ps) :
     ps.Nodup := slicePos_nodup h
@@ -124,6 +152,53 @@ theorem select_rejects {d : D α} {ix : Index} (h : (resolve d.length ix).positi
   | many ps => rw [hr] at h; cases h
   | indexError => exact Or.inl rfl
   | valueError => exact Or.inr rfl
+
+/-- Multivariate data: the index is applied to every component (same positions everywhere) and the
+result is only returned when all components still have the same number of observations. -/
+theorem multi_get_components {cs gs : List (Comp α)} {ix : Index} (h : multiGet cs ix = .ok gs) :
+    gs.length = cs.length ∧
+      (∀ i (h1 : i < cs.length) (h2 : i < gs.length), (cs[i]).get ix = .ok gs[i]) ∧
+      allEqNat (gs.map Comp.nObs) = true := by
+  unfold multiGet at h
+  cases hg : getComps ix cs with
+  | error e => rw [hg] at h; cases h
+  | ok gs' =>
+    rw [hg] at h
+    simp only at h
+    split at h
+    · rename_i hn
+      cases h
+      refine ⟨?_, ?_, hn⟩
+      · clear hn
+        induction cs generalizing gs with
+        | nil => simp only [getComps] at hg; cases hg; rfl
+        | cons c cs ih =>
+          simp only [getComps] at hg
+          cases hc : c.get ix with
+          | error e => rw [hc] at hg; cases hg
+          | ok g =>
+            rw [hc] at hg
+            cases hr : getComps ix cs with
+            | error e => rw [hr] at hg; cases hg
+            | ok r => rw [hr] at hg; cases hg; simp [ih hr]
+      · clear hn
+        induction cs generalizing gs with
+        | nil => intro i h1; simp at h1
+        | cons c cs ih =>
+          simp only [getComps] at hg
+          cases hc : c.get ix with
+          | error e => rw [hc] at hg; cases hg
+          | ok g =>
+            rw [hc] at hg
+            cases hr : getComps ix cs with
+            | error e => rw [hr] at hg; cases hg
+            | ok r =>
+              rw [hr] at hg; cases hg
+              intro i h1 h2
+              cases i with
+              | zero => simpa using hc
+              | succ i => simpa using ih hr i (by simpa using h1) (by simpa using h2)
+    · cases h
 
 /-! ## Iteration -/
 
